@@ -216,7 +216,7 @@ func (E *Engine) load(st *State, h map[string]string, lv *LVal) *Val {
 	if twoD {
 		root = elemsRoot(lv.Root)
 	} else {
-		root = E.rootName(lv.Root)
+		root = E.rootOf(lv)
 	}
 	var ls []leafInfo
 	E.leafPaths(T, "", &ls)
@@ -332,7 +332,7 @@ func (E *Engine) store(st *State, lv *LVal, nv *Val) {
 	if twoD {
 		root = elemsRoot(lv.Root)
 	} else {
-		root = E.rootName(lv.Root)
+		root = E.rootOf(lv)
 	}
 	var ls []leafInfo
 	E.leafPaths(T, "", &ls)
@@ -563,4 +563,12 @@ func (E *Engine) oblige(st *State, kind, site, goal, pretty, pos string, cl *Cla
 		}
 	}
 	E.Obligs = append(E.Obligs, ob)
+}
+
+// rootOf: component family of the object an l-value lives in.
+func (E *Engine) rootOf(lv *LVal) string {
+	if lv.VarCell {
+		return "var<" + typeKey(lv.Root) + ">"
+	}
+	return E.rootName(lv.Root)
 }
